@@ -50,7 +50,10 @@ type fakeCH struct {
 	dos     int64
 	issues  []blockIssue
 	markers map[string]int // marker -> times seen in a string column of an accepted block
+	doLog   map[string]int // INSERT statement -> blocks received since the last takeDoLog
 }
+
+var errNotRectangular = fmt.Errorf("fake ClickHouse: block rejected, columns have different numbers of rows")
 
 var markerRe = regexp.MustCompile(`verifmk[0-9]+x`)
 
@@ -76,10 +79,24 @@ func (f *fakeCH) Do(ctx context.Context, q ch.Query) error {
 			}
 		}
 	}
+	if f.doLog != nil {
+		f.doLog[q.Body]++
+	}
 	if !rect || first <= 0 {
 		f.issues = append(f.issues, blockIssue{q.Body, rows})
+		if !rect {
+			return errNotRectangular // as the server would: the whole block, with every client's rows in it, is refused
+		}
 	}
 	return nil
+}
+
+func (f *fakeCH) takeDoLog() map[string]int {
+	f.mu.Lock()
+	defer f.mu.Unlock()
+	r := f.doLog
+	f.doLog = map[string]int{}
+	return r
 }
 
 func (f *fakeCH) takeIssues() []blockIssue {
@@ -179,7 +196,7 @@ type ingest struct {
 	routes []string // "METHOD template" walked on the real router
 }
 
-func assemble() *ingest {
+func assemble(shared bool) *ingest {
 	cfg := clconfig.New(clconfig.CLOKI_READER, nil, "", "")
 	cfg.ReadConfig()
 	db := config.ClokiBaseDataBase{Name: "verif", Host: "fake", Port: 9000, ReadTimeout: 30, WriteTimeout: 30, TTLDays: 7}
@@ -187,6 +204,13 @@ func assemble() *ingest {
 	cfg.Setting.SYSTEM_SETTINGS.Mode = "writer"
 	cfg.Setting.SYSTEM_SETTINGS.DBTimer = 0.002 // BULK_MAX_AGE_MS=2: flush interval of the insert services
 	cfg.Setting.SYSTEM_SETTINGS.RetryTimeoutS = 0
+	if shared {
+		// "shared batch" workers: one insert-service instance per table and a flush interval long enough for two
+		// clients' rows to meet in the same batch
+		cfg.Setting.SYSTEM_SETTINGS.DBTimer = 0.25
+		cfg.Setting.SYSTEM_SETTINGS.ChannelsSample = 1
+		cfg.Setting.SYSTEM_SETTINGS.ChannelsTimeSeries = 1
+	}
 	cfg.Setting.LOG_SETTINGS.Level = "error"
 	wconfig.Cloki = cfg
 
@@ -287,18 +311,21 @@ func shortSite(s string) string {
 
 // Result of one input (journal "E" record).
 type Result struct {
-	ID         int          `json:"id"`
-	Status     int          `json:"status"`
-	Panic      string       `json:"panic,omitempty"` // panic inside the handler goroutine (net/http would swallow it: no response)
-	PanicSite  string       `json:"panic_site,omitempty"`
-	Requests   int64        `json:"svc_requests"` // calls into insert services caused by the input
-	Issues     []blockIssue `json:"block_issues,omitempty"`
-	Leaked     []string     `json:"leaked,omitempty"` // goroutines of the request still alive after the grace ("site [state]")
-	FollowUp   int          `json:"followup_status,omitempty"`
-	FollowSeen bool         `json:"followup_rows_seen,omitempty"`
-	FollowDone bool         `json:"followup_done,omitempty"`
-	FollowIss  []blockIssue `json:"followup_block_issues,omitempty"`
-	MicroS     int64        `json:"us"`
+	ID         int            `json:"id"`
+	Status     int            `json:"status"`
+	Panic      string         `json:"panic,omitempty"` // panic inside the handler goroutine (net/http would swallow it: no response)
+	PanicSite  string         `json:"panic_site,omitempty"`
+	Requests   int64          `json:"svc_requests"` // calls into insert services caused by the input
+	Issues     []blockIssue   `json:"block_issues,omitempty"`
+	Leaked     []string       `json:"leaked,omitempty"` // goroutines of the request still alive after the grace ("site [state]")
+	FollowUp   int            `json:"followup_status,omitempty"`
+	FollowSeen bool           `json:"followup_rows_seen,omitempty"`
+	FollowDone bool           `json:"followup_done,omitempty"`
+	FollowIss  []blockIssue   `json:"followup_block_issues,omitempty"`
+	SharedMode bool           `json:"shared_mode,omitempty"`  // the follow-up push was already waiting in the batch when the input arrived
+	Shared     bool           `json:"shared_batch,omitempty"` // ... and both went to the fake in the same block(s)
+	Blocks     map[string]int `json:"blocks,omitempty"`
+	MicroS     int64          `json:"us"`
 }
 
 type stallInfo struct {
@@ -468,6 +495,66 @@ func (w *workerEnv) run(in *Input, forceFollow bool) Result {
 	return res
 }
 
+// runShared: another client's valid push of the same family is sent first and is waiting for the flush when the
+// input arrives; both share the insert-service batch and reach the fake ClickHouse in one block.
+func (w *workerEnv) runShared(in *Input) Result {
+	t0 := time.Now()
+	res := Result{ID: in.ID, SharedMode: true}
+	base := w.base
+	if base == nil {
+		base = census()
+	}
+	fam := followFamily(in)
+	w.ing.fake.takeIssues()
+	w.ing.fake.takeDoLog()
+	r0 := atomic.LoadInt64(&svcRequests)
+	w.mkSeq++
+	marker := fmt.Sprintf("verifmk%d%06dx", os.Getpid(), w.mkSeq)
+	rs, ct := routeForFamily(fam)
+	var hs [][2]string
+	if ct.CT != "" {
+		hs = append(hs, [2]string{"Content-Type", ct.CT})
+	}
+	path, q := rs.Path, rs.Query
+	if fam == "pprof_multipart" || fam == "pprof_binary" {
+		q = "name=" + marker + "&from=1700000000&until=1700000010"
+	}
+	if q != "" {
+		path += "?" + q
+	}
+	other := make(chan serveOut, 1)
+	go func() { other <- w.serve(in.ID, rs.Method, path, hs, seedBody(fam, marker), base) }()
+	// wait until the other client's rows are in the batch (its calls into the insert services have been made)
+	for i, last, stable := 0, int64(-1), 0; i < 2000 && stable < 10; i++ {
+		time.Sleep(200 * time.Microsecond)
+		if d := atomic.LoadInt64(&svcRequests) - r0; d > 0 && d == last {
+			stable++
+		} else {
+			last, stable = d, 0
+		}
+	}
+	so := w.serve(in.ID, in.Method, in.Path, in.Headers, in.Body, base)
+	fo := <-other
+	res.Status, res.Panic, res.PanicSite = so.status, so.panicked, so.panicSite
+	res.FollowDone, res.FollowUp = true, fo.status
+	if fo.panicked != "" {
+		res.FollowUp = -1
+	}
+	res.FollowSeen = w.ing.fake.sawMarker(marker)
+	res.Leaked, w.base = settle(base)
+	res.Requests = atomic.LoadInt64(&svcRequests) - r0
+	res.Issues = w.ing.fake.takeIssues()
+	res.Blocks = w.ing.fake.takeDoLog()
+	res.Shared = len(res.Blocks) > 0
+	for _, n := range res.Blocks {
+		if n != 1 {
+			res.Shared = false // two blocks for one table: the two requests did not meet (or a refused block was retried)
+		}
+	}
+	res.MicroS = time.Since(t0).Microseconds()
+	return res
+}
+
 // followFamily: which family's valid seed is pushed after this input (same decoder family where there is one).
 func followFamily(in *Input) string {
 	switch in.Family {
@@ -496,7 +583,7 @@ func routeForFamily(fam string) (routeSpec, ctSpec) {
 }
 
 // workerMain: read inputs (JSON lines) from file starting at offset, run up to count of them, journal on stdout.
-func workerMain(file string, offset int64, count int, deadline time.Duration, standby bool) {
+func workerMain(file string, offset int64, count int, deadline time.Duration, standby, shared bool) {
 	// the journal goes to fd 3 (stdout / stderr carry whatever the repository prints, and the crash dump)
 	jf := os.Stdout
 	if os.Getenv("VERIF_C05_JOURNAL_FD") == "3" {
@@ -504,7 +591,8 @@ func workerMain(file string, offset int64, count int, deadline time.Duration, st
 	}
 	out := bufio.NewWriterSize(jf, 1<<16)
 	w := &workerEnv{out: out, deadline: deadline}
-	w.ing = assemble()
+	w.ing = assemble(shared)
+	w.ing.fake.doLog = map[string]int{}
 	// the insert services start their loops asynchronously: wait until the set of repository goroutines is stable
 	{
 		prev, same := -1, 0
@@ -529,6 +617,49 @@ func workerMain(file string, offset int64, count int, deadline time.Duration, st
 	}
 	sort.Strings(fams)
 	w.deadline = 15 * time.Second // warm-up runs while the machine may be busy starting other workers
+	if shared {
+		// flush interval 250 ms: warm up with all seeds at once (they must all be acknowledged)
+		type wu struct {
+			fam string
+			so  serveOut
+		}
+		ch := make(chan wu, len(fams))
+		nfam := 0
+		for _, fam := range fams {
+			if fam == "health" {
+				continue
+			}
+			nfam++
+			go func(fam string) {
+				rs, ct := routeForFamily(fam)
+				path := rs.Path
+				if rs.Query != "" {
+					path += "?" + rs.Query
+				}
+				var hs [][2]string
+				if ct.CT != "" {
+					hs = [][2]string{{"Content-Type", ct.CT}}
+				}
+				ch <- wu{fam, w.serve(-1, rs.Method, path, hs, seedBody(fam, ""), map[int]gor{})}
+			}(fam)
+		}
+		for i := 0; i < nfam; i++ {
+			x := <-ch
+			if x.so.status != familyOK[x.fam] || x.so.panicked != "" {
+				w.emit("W", map[string]any{"family": x.fam})
+				w.emit("F", map[string]any{"family": x.fam, "msg": fmt.Sprintf("the valid seed of family %s is answered %d %s in a shared-batch worker", x.fam, x.so.status, x.so.panicked)})
+				os.Exit(4)
+			}
+		}
+		if is := w.ing.fake.takeIssues(); len(is) > 0 {
+			b, _ := json.Marshal(is)
+			w.emit("W", map[string]any{"family": "all_seeds_together"})
+			w.emit("F", map[string]any{"family": "all_seeds_together", "msg": "the valid seeds pushed together produce a bad block: " + string(b)})
+			os.Exit(4)
+		}
+		settle(census())
+		fams = nil
+	}
 	for _, fam := range fams {
 		if fam == "health" {
 			continue
@@ -593,7 +724,12 @@ func workerMain(file string, offset int64, count int, deadline time.Duration, st
 		}
 		fmt.Fprintf(out, "B %d\n", in.ID)
 		out.Flush()
-		r := w.run(&in, count == 1)
+		var r Result
+		if shared {
+			r = w.runShared(&in)
+		} else {
+			r = w.run(&in, count == 1)
+		}
 		w.emit("E", r)
 	}
 	w.emit("D", map[string]any{"done": true})
